@@ -79,6 +79,7 @@ impl TaskManager {
 
 					// Flush ALL pending immutable memtables in a loop
 					let mut flush_count = 0;
+					let mut flush_failed = false;
 					loop {
 						match core.compact_memtable() {
 							Ok(()) => {
@@ -94,6 +95,7 @@ impl TaskManager {
 								core.error_handler()
 									.set_error(e, BackgroundErrorReason::MemtablaFlush);
 								write_stall.signal_shutdown();
+								flush_failed = true;
 								break;
 							}
 						}
@@ -113,6 +115,19 @@ impl TaskManager {
 					#[cfg(feature = "verif")]
 					crate::verif::yield_sync("task.flush.pre_idle");
 					running.store(false, Ordering::SeqCst);
+
+					// A memtable rotated between the last `has_pending_immutables()` check
+					// and the store above found `running == true` and therefore did not
+					// notify us (see `wake_up_memtable`). Nobody else will: writers stall on
+					// the immutable-memtable limit and no further rotation happens. Check
+					// once more now that `running` is false and wake ourselves if needed.
+					// (Not after a failed flush: that would retry in a tight loop.)
+					if !flush_failed
+						&& !stop_flag.load(Ordering::SeqCst)
+						&& core.has_pending_immutables()
+					{
+						notify.notify_one();
+					}
 				}
 			});
 			task_handles.lock().unwrap().as_mut().unwrap().push(handle);
